@@ -242,6 +242,13 @@ def check_cnf(formula):
                 if via_use:
                     reset_protocol()
             obs.append((pname, rname, via_use, got))
+            cls = cnf_class(formula)
+            if (got != want and rname == "AUTO_DETECT" and cls["shape"] == "lone-literal"
+                    and cls["negation"] == "none" and cls["limit"] == "yes" and got == 0):
+                # "a:3" alone is BOTH a pure old-style expression (tag a, limit 3) and a pure new-style literal (the
+                # tag named "a:3", absent from the universe -> constant false): the statement gives both dialects a
+                # claim on it, so either reading is accepted (DESIGN section 9, amendment on 8.13).
+                continue
             if got != want:
                 tags, g, w = first_diff(got, want, SUB4)
                 d = {"subcheck": "cnf", "clause": "truth-table", "protocol": rname}
@@ -446,6 +453,10 @@ def check_cli(case):
         reset_protocol()
         return {"v": v, "dg": ("EXC", type(ex).__name__), "out": ("cli", "exc")}
     reset_protocol()
+    cls = cnf_class(formula)
+    if (got != want and proto_name == "AUTO_DETECT" and cls["shape"] == "lone-literal"
+            and cls["negation"] == "none" and cls["limit"] == "yes" and got == 0):
+        got = want      # ambiguous text claimed by both dialects, see check_cnf
     if got != want:
         tags, g, w = first_diff(got, want, SUB4)
         # attribution: if make_tag_expression on the same argument list is wrong in the same way, this is the
